@@ -13,5 +13,6 @@ GNext == \/ \E v \in Vals, c \in Classes : New(v, c) /\ hist' = Append(hist, Op(
          \/ \E i \in 1..MaxObjs, x \in Vals : \/ SetVec(i, x) /\ hist' = Append(hist, Op("setvec", i, 0, x, ""))
                                               \/ SetCost(i, x) /\ hist' = Append(hist, Op("setcost", i, 0, x, ""))
                                               \/ SetSigned(i, x) /\ hist' = Append(hist, Op("setsigned", i, 0, x, ""))
+                                              \/ SetFeat(i, x) /\ hist' = Append(hist, Op("setfeat", i, 0, x, ""))
 Emit == (nops = MaxOps) => PrintT(<<"BEH", ToJson(hist)>>)
 =============================================================================
